@@ -16,9 +16,12 @@ def first_bytes_cases(rng, n):
     lines = []
     for _ in range(n):
         le = rng.random() < 0.5
-        off = rng.choice([21, 22, 100, 2 ** 31 - 1, 2 ** 31, 2 ** 32 + 5, 2 ** 40 + 7, rng.getrandbits(rng.randint(5, 60)) + 21])
+        off = rng.choice([21, 22, 100, 2 ** 31 - 1, 2 ** 31, 2 ** 32 + 5, 2 ** 40 + 7, rng.getrandbits(rng.randint(5, 60)) + 21,
+                          # the boundaries of the reader's range test and of int64
+                          0, 1, 20, -1, -2, -2 ** 31, 2 ** 61 - 1, 2 ** 61, 2 ** 61 + 1, 2 ** 62 + 21, 2 ** 63 - 1, -2 ** 63,
+                          rng.getrandbits(64) - 2 ** 63])
         e = '<' if le else '>'
-        if off > 2 ** 31 - 1 or rng.random() < 0.1:
+        if off > 2 ** 31 - 1 or off < -2 ** 31 or rng.random() < 0.1:
             b = b'MTZ ' + struct.pack(e + 'i', -1) + (b'\x44\x41\0\0' if le else b'\x11\x11\0\0') + struct.pack(e + 'q', off)
         else:
             b = b'MTZ ' + struct.pack(e + 'i', off) + (b'\x44\x41\0\0' if le else b'\x11\x11\0\0') + struct.pack(e + 'q', rng.choice([0, rng.getrandbits(60)]))
